@@ -188,6 +188,23 @@ pub fn check_pair(bufs: &mut Bufs, h: &[u8], n: &[u8]) -> CaseResult {
         ensure!(!gs.is_empty() && gs[..gs.len() - 1] == exp_j[..], "UnixStr::path_join_fmt|wrong-bytes", "path_join_fmt({:?},{:?}) = {:?}, expected {:?}+NUL", escape(h), escape(n), escape(gs), escape(&exp_j));
     }
 
+    // the extension given as a literal format string (no arguments to format: `Arguments::as_str()` is Some, which
+    // an implementation may treat as a case of its own) - a fixed set of literals against this base
+    if n.len() <= 1 {
+        macro_rules! lit_join {
+            ($($l:literal),*) => {
+                $({
+                    let got: UnixString = crate::runner::no_panic("UnixStr::path_join_fmt", || hs.path_join_fmt(format_args!($l)))?;
+                    let gs = got.as_slice();
+                    let exp = ref_join(h, $l.as_bytes());
+                    ensure!(!gs.is_empty() && gs[..gs.len() - 1] == exp[..], "UnixStr::path_join_fmt|wrong-bytes|literal format string", "path_join_fmt({:?}, format_args!({:?})) = {:?}, expected {:?}+NUL", escape(h), $l, escape(gs), escape(&exp));
+                })*
+            };
+        }
+        lit_join!("there", "/there", "a", "a/", "x/y", "//x", ".", "");
+        rep.class("joined-with-literal-format-strings");
+    }
+
     rep.nontrivial_if((!n.is_empty() && h.len() >= n.len()) || h.contains(&b'/') || n.contains(&b'/'));
     rep.class_if(n.is_empty(), "empty-needle");
     rep.class_if(h == n && h.len() >= 7, "equal-operands-of-7-bytes-or-more");
